@@ -16,7 +16,7 @@ EXPLANATION = (
     "present), that on success edge.vertices[k] IS the listed vertex whose id equals edge.vertex_ids[k], and that it raises otherwise."
 )
 BOUNDS = {"quick": "seeded third of the structural cases (edge kind x 10 unordered pose-type pairs x 6 measurement types x 5 offset types x 1..3 ids), all id bindings and all shapes symbolic", "thorough": "all 1080 structural cases"}
-OUTSIDE = "edges of custom classes (their is_valid is user code); information objects are represented by their shape only"
+OUTSIDE = "(stale-* cases: the edge object arrives with vertices already populated by an earlier binding) edges of custom classes (their is_valid is user code); information objects are represented by their shape only"
 ASSUMPTIONS = ["vertex ids pairwise distinct", "information shape entries are positive integers"]
 
 
@@ -49,7 +49,7 @@ def _value(P, g, typ, name):
     return None
 
 
-def _case(ekind, vtypes, est_type, off_type, arity):
+def _case(ekind, vtypes, est_type, off_type, arity, stale=False):
     def fn(P, g):
         np = P.np
         nv = len(vtypes)
@@ -69,6 +69,11 @@ def _case(ekind, vtypes, est_type, off_type, arity):
             e = g.EdgeOdometry(list(eids), info, est)
         else:
             e = g.EdgeLandmark(list(eids), info, est, _value(P, g, off_type, "off"), offset_id=0)
+        if stale:
+            # the edge arrives already bound (e.g. it was part of another graph): to vertices that carry the named ids but
+            # are NOT the new graph's vertices and are all of the measurement's type
+            st = est_type if est_type in POSE_KINDS else "R2"
+            e.vertices = [g.Vertex(eids[k], mk_pose(P, g, st, "stale%d" % k, wrapped=True)) for k in range(arity)]
         raised = None
         try:
             graph = g.Graph([e], list(verts))
@@ -139,4 +144,9 @@ def cases(tier):
         keep = [s for s in structs if s[4] == 2 and ((s[0] == "odom" and s[2] == s[1][0]) or (s[0] == "lmk" and s[3] == s[1][0] and s[2] in s[1]))]
         rest = [s for s in structs if s not in keep]
         structs = keep + rnd.sample(rest, len(rest) // 4)
-    return [Case(_name(s), _case(*s), timeout=10, validate=2, feas_timeout_ms=1000) for s in structs]
+    out = [Case(_name(s), _case(*s), timeout=10, validate=2, feas_timeout_ms=1000) for s in structs]
+    stale = [s for s in all_structs() if s[4] == 2 and s[2] in POSE_KINDS and s[1][0] != s[1][1]]
+    if tier == "quick":
+        stale = stale[::5]
+    out += [Case("stale-" + _name(s), _case(*s, stale=True), timeout=10, validate=2, feas_timeout_ms=1000) for s in stale]
+    return out
